@@ -55,6 +55,22 @@ def run(ctx):
                     continue
                 if mon.objects_judged == before:
                     ctx.inconc("value_isothermal was computed without the monitor seeing it (hook escaped)")
+                # object history: reading other results (adiabatic value, parts) must leave the isothermal results as they were
+                try:
+                    first = {nm: numpy.array(getattr(obj, nm), copy=True) for nm in ("value_isothermal", "zero_point_contribution", "thermal_contribution")}
+                    with numpy.errstate(all="ignore"):
+                        for _ in range(2):
+                            obj.value_adiabatic
+                    for nm, arr in first.items():
+                        if not numpy.array_equal(numpy.asarray(getattr(obj, nm)), arr, equal_nan=True):
+                            ctx.violation(f"{kind}:{nm}:changes-after-reading-adiabatic", f"{nm} of a c{a+1}{b+1} object differs after value_adiabatic was read "
+                                          f"(max change {numpy.nanmax(numpy.abs(numpy.asarray(getattr(obj, nm)) - arr)):.3g})", case_id)
+                    ctx.count("reread_after_adiabatic")
+                except Exception as exc:
+                    if classify_exception(exc) == "code":
+                        ctx.violation(f"{kind}:adiabatic-read-raises:{type(exc).__name__}", exc_text(exc), case_id)
+                    else:
+                        ctx.harness_error("C01.reread", exc)
                 nontriv = bool(nontriv_modes and (t > 0).any() and numpy.any(numpy.asarray(val) != 0))
                 ctx.evaluation(f"{kind}|{hostile or 'generic'}|gamma-slots={fill}", (W.spec_digest(spec, t, v), a, b), nontrivial=nontriv,
                                sample={"component": f"c{a+1}{b+1}", "nq": spec.nq, "atoms": spec.natoms, "T": t[:5], "V_head": v[:3],
